@@ -187,14 +187,28 @@ def judge(rec, lib, css, st, fname, stdout, stderr, out_css, cards, feats, case)
         rec.violation(f"summary disagrees with itself: {so['tuned']} adjusted vs {len(cards)} report cards; {so['failed']} attention vs {len(so['listed'])} listed", case)
         return
     carded = {}
+    ncards = {}
     for c in cards:
         rs = model.by_sel.get(c["selector"])
-        if not rs or c["selector"] in carded or not c["ok"]:
+        ncards[c["selector"]] = ncards.get(c["selector"], 0) + 1
+        # a selector may occur several times only as exact repetitions of one rule (same declarations): then all of them share one fate
+        dup_ok = rs and len(rs) > 1 and all(cssmodel.canon_decls(r.node.content) == cssmodel.canon_decls(rs[0].node.content) for r in rs)
+        if not rs or not c["ok"] or (c["selector"] in carded and not dup_ok) or ncards[c["selector"]] > len(rs):
             rec.violation(f"report card for selector {c['selector']!r} does not identify exactly one rule of the input", case)
             return
         carded[c["selector"]] = c
+    for sel, k in ncards.items():
+        if k != len(model.by_sel[sel]):
+            rec.violation(f"selector {sel!r} occurs in {len(model.by_sel[sel])} identical rules with a text colour but has {k} report card(s): every adjusted rule "
+                          f"is reported", case)
+            return
     listed = set()
+    nlisted = {}
     for f, s in so["listed"]:
+        nlisted[s] = nlisted.get(s, 0) + 1
+        if s in model.by_sel and s not in carded and f == fname and nlisted[s] <= len(model.by_sel[s]) and len(model.by_sel[s]) > 1:
+            listed.add(s)
+            continue
         if s not in model.by_sel or s in carded or s in listed or f != fname:
             rec.violation(f"'Could not tune' lists {f!r} -> {s!r}, which is not exactly one un-adjusted rule of {fname}", case)
             return
@@ -317,6 +331,14 @@ def dir_runs(shard, rec, lib, scratch):
             sheets[rel] = (text, sh.features)
             with open(os.path.join(d, rel), "w", encoding="utf-8", newline="") as f:
                 f.write(text)
+        if si % 2 == 1:
+            # a byte-identical copy of one sheet under another name: its rules are counted, reported and written like anyone's
+            src_rel = names[0]
+            copy_rel = os.path.join("sub", "copy-of-a.css")
+            sheets[copy_rel] = sheets[src_rel]
+            with open(os.path.join(d, copy_rel), "w", encoding="utf-8", newline="") as f:
+                f.write(sheets[src_rel][0])
+            rec.count("identical_copies")
         rc, out, err = clirun.run(cli_args(".", st), d, inprocess=(si % 2 == 0))
         rec.ev()
         rec.count("dir_runs")
